@@ -81,10 +81,8 @@ class Interpolate(BaseFormOperator):
 
     def __repr__(self):
         """Default repr string construction for Interpolate."""
-        r = "Interpolate("
-        r += ", ".join(repr(arg) for arg in reversed(self.argument_slots()))
-        r += f"; {self.ufl_function_space()!r})"
-        return r
+        v, expr = self.argument_slots()
+        return f"Interpolate({expr!r}, {v!r})"
 
     def __str__(self):
         """Default str string construction for Interpolate."""
